@@ -78,6 +78,8 @@ def sliced():
         raise slicer.SliceError("interpret_one is no longer `match instruction { .. } Ok(())`")
     selected = slicer.select_arms(arms, ARMS)
     sig2, body2 = slicer.function(src, "take_last_error_address")
+    # private helpers of Interpreter that the selected arms or the loop body call (a refactoring may introduce some): sliced along
+    helpers = []
     _, trait_impl = slicer.block(src, r"impl<[^{]*>\s*InterpreterTrait\s+for\s+Interpreter")
     sig3, body3 = slicer.function(trait_impl, "interpret")
     # the fetch-execute loop: `while i < instructions.len() && !ctx.halt { BODY }` followed by `Ok(())`
@@ -88,6 +90,12 @@ def sliced():
     if body3[end + 1:].strip() != "Ok(())":
         raise slicer.SliceError("interpret no longer ends with the fetch-execute loop and Ok(())")
     loop_body = body3[w.end():end]
+    _, inherent = slicer.block(src, r"impl<[^{]*>\s*Interpreter<")
+    skip = {"interpret_one", "interpret", "take_last_error_address", "new"}
+    called = set(re.findall(r"\bself\s*\.\s*([A-Za-z_][A-Za-z0-9_]*)\s*\(", selected + loop_body)) | set(re.findall(r"\bSelf::([A-Za-z_][A-Za-z0-9_]*)\s*\(", selected + loop_body))
+    roots = [n for n in slicer.fn_names(inherent) if n in called and n not in skip]
+    for n in slicer.closure(inherent, roots, exclude=skip):
+        helpers.append("        " + slicer.function_text(inherent, n))
     return """
     impl VkVm {
         // ---- text of /repo's main.rs: the selected arms of interpret_one, take_last_error_address ----
@@ -101,6 +109,8 @@ def sliced():
 
         %(sig2)s {%(body2)s}
 
+%(helpers)s
+
         /// one iteration of the fetch-execute loop of `interpret`: the text between the braces of its `while`, unchanged
         pub fn vk_one_iteration(&mut self, instructions: &VkProgram, mut ctx: InterpretOneContext, mut i: usize)
             -> Result<(usize, InterpretOneContext), RuntimeErrorPos> {
@@ -108,7 +118,7 @@ def sliced():
             Ok((i, ctx))
         }
     }
-""" % {"sig1": sig1, "arms": selected, "sig2": sig2, "body2": body2, "loop_body": loop_body}
+""" % {"sig1": sig1, "arms": selected, "sig2": sig2, "body2": body2, "loop_body": loop_body, "helpers": "\n\n".join(helpers)}
 
 
 REF = """
